@@ -69,6 +69,9 @@ def from_vector_rules(chk, repo, rid):
     if len(svd) != 1 or not isinstance(svd[0].targets[0], ast.Tuple) or len(svd[0].targets[0].elts) != 3:
         raise AnalysisError('from_vector: `u, s, v = np.linalg.svd(...)` not found')
     U, S, V = [norm(t) for t in svd[0].targets[0].elts]
+    mk = [s_ for s_ in fi.node.body if isinstance(s_, ast.Assign) and isinstance(s_.value, ast.Call) and
+          norm(s_.value.func) == 'cls' and isinstance(s_.targets[0], ast.Name)]
+    M = mk[0].targets[0].id if len(mk) == 1 else 'mps'
     n = restriction_rule(chk, repo, rid, fi, {U: 1, S: 0, V: 0})
     fm = [k for k in svd[0].value.keywords if k.arg == 'full_matrices']
     chk.ob(rid, where(repo, fi, svd[0]), 'from_vector: reduced SVD (full_matrices=False)',
@@ -98,7 +101,7 @@ def from_vector_rules(chk, repo, rid):
         try:
             it = LegInterp(fi, {V: v0}, repo=repo, body=body)
             it.run()
-            site = it.env.get(f'@mps.A[{i}]')
+            site = it.env.get(f'@{M}.A[{i}]')
             vn = it.env.get(V)
             ok_site = isinstance(site, TVal) and site.rank == 3 and [[l.dim for l in ax] for ax in site.axes][:2] == \
                 [['d'], [f'{V}.0']] and len(site.axes[2]) == 1 and site.axes[2][0].tag == 'bond'
@@ -122,13 +125,13 @@ def from_vector_rules(chk, repo, rid):
             chk.ob(rid, w, 'from_vector: loop body is well-formed in the leg domain', False, str(ex),
                    key=f'{rid}|from_vector|wellformed')
         sv = [s for s in loop[0].body if isinstance(s, ast.Assign) and norm(s.targets[0]) == V]
-    lab = [s for s in (loop[0].body if loop else []) if isinstance(s, ast.Assign) and norm(s.targets[0]).startswith('mps.qD[')]
-    ok = len(lab) == 1 and b is not None and norm(lab[0].targets[0]) == f'mps.qD[{b["__i"]} + 1]' and \
+    lab = [s for s in (loop[0].body if loop else []) if isinstance(s, ast.Assign) and norm(s.targets[0]).startswith(f'{M}.qD[')]
+    ok = len(lab) == 1 and b is not None and norm(lab[0].targets[0]) == f'{M}.qD[{b["__i"]} + 1]' and \
         f'len({S})' in norm(lab[0].value) and lab[0].lineno > (sv[0].lineno if sv else 0)
     chk.ob(rid, where(repo, fi, lab[0] if lab else fi.node), 'from_vector: the label of bond i+1 has the length of the '
            'retained singular values (taken after the truncation)', ok, norm(lab[0]) if lab else '', key=f'{rid}|from_vector|label')
     # trailing scalar absorbed
-    tail = [s for s in fi.node.body if isinstance(s, ast.AugAssign) and norm(s.target) == 'mps.A[-1]']
+    tail = [s for s in fi.node.body if isinstance(s, ast.AugAssign) and norm(s.target) == f'{M}.A[-1]']
     ok = len(tail) == 1 and isinstance(tail[0].op, ast.Mult) and norm(tail[0].value) == f'{V}[0, 0]'
     chk.ob(rid, where(repo, fi, tail[0] if tail else fi.node), 'from_vector: the remaining 1x1 factor is absorbed into the '
            'last tensor', ok, norm(tail[0]) if tail else '', key=f'{rid}|from_vector|tail')
